@@ -560,8 +560,8 @@ class Summariser:
             changed = False
             for st in list(sets(p.effects)):
                 m = self._SET_NAME.match(st[1])
-                names = (st[1], f"{m.group(1)}@after{m.group(2)}")
-                pat = re.compile("|".join(re.escape(n) + r"(?![0-9])" for n in names))
+                # (texts that went through the unparser spell the marker `v @ loop1`)
+                pat = re.compile(r"(?<![A-Za-z0-9_])" + re.escape(m.group(1)) + r" ?@ ?(?:loop|after)" + m.group(2) + r"(?![0-9])")
                 other = list(texts(tuple(p.effects), st)) + [t for t, _ in p.conds] + [p.value or ""]
                 if any(pat.search(t) for t in other):
                     continue
